@@ -28,8 +28,12 @@ const gangConfig = `partitions:
             maxresources: {cpu: 200, mem: 200, gpu: %d}
         queues:
           - name: a
+            resources:
+              max: {cpu: %d, mem: 60, gpu: 1}
           - name: b
             parent: true
+            resources:
+              max: {cpu: 16, mem: 60, gpu: 1}
             queues:
               - name: b1
               - name: b2
@@ -45,7 +49,7 @@ func gangHistory(c *Ctx, d *coreDrv) {
 			deny = append(deny, fmt.Sprintf("r%d|n%d", i, 1+c.pick(3)))
 		}
 	}
-	d.apply(map[string]interface{}{"op": "reset", "config": fmt.Sprintf(gangConfig, 1), "deny": strings.Join(deny, " ")})
+	d.apply(map[string]interface{}{"op": "reset", "config": fmt.Sprintf(gangConfig, 1, 6+c.pick(8)), "deny": strings.Join(deny, " ")})
 	if d.s == nil {
 		return
 	}
